@@ -431,7 +431,17 @@ def analyse_body(facts, rep, b, is_parser, rules, reach=None):
             else:
                 rep.count("bounds_not_decided")
         elif kind in ("DivisionByZero", "RemainderByZero"):
-            a = b.term_of_operand(m["a"])
+            # the message operand is the dividend; the divisor is what the asserted condition compares with zero
+            ct = b.term_of_operand(t["cond"])
+            a = None
+            if ct[0] == "bin" and ct[1] == "Eq":
+                if ct[3][0] == "const" and ct[3][1] == 0:
+                    a = ct[2]
+                elif ct[2][0] == "const" and ct[2][1] == 0:
+                    a = ct[3]
+            if a is None:
+                rep.count("divzero_not_decided")
+                continue
             pa = P.of(a, None)
             if pa[0] > 0 or pa[1] < 0:
                 rep.count("divzero_discharged")
